@@ -4166,3 +4166,32 @@ fn register_rule_predicates(rule: &Rule, database: &mut SparqlDatabase) {
         }
     }
 }
+
+/// Verification hook (compiled only with `--cfg kolibrie_verif`): gives the
+/// differential harness access to the private hand-written token scanners.
+#[cfg(kolibrie_verif)]
+pub mod verif {
+    use nom::IResult;
+
+    pub fn sparql_skip_ws(input: &str) -> &str {
+        super::sparql_skip_ws(input)
+    }
+    pub fn sparql_variable(input: &str) -> IResult<&str, &str> {
+        super::sparql_variable(input)
+    }
+    pub fn sparql_iri(input: &str) -> IResult<&str, &str> {
+        super::sparql_iri(input)
+    }
+    pub fn sparql_blank_node(input: &str) -> IResult<&str, &str> {
+        super::sparql_blank_node(input)
+    }
+    pub fn sparql_prefixed_name(input: &str) -> IResult<&str, &str> {
+        super::sparql_prefixed_name(input)
+    }
+    pub fn sparql_numeric_literal(input: &str) -> IResult<&str, &str> {
+        super::sparql_numeric_literal(input)
+    }
+    pub fn sparql_quoted_literal(input: &str) -> IResult<&str, &str> {
+        super::sparql_quoted_literal(input)
+    }
+}
